@@ -26,6 +26,7 @@ func RandomHistories(w *WorldJSON, seed int64, n, depth int, routers []string, f
 			if focus == "exchange" || focus == "all" {
 				if rng.Intn(6) == 0 {
 					cfg.Policy.Deny = true
+					cfg.Policy.DenyAtCreate = rng.Intn(2) == 0
 				}
 				cfg.Policy.DefType = []string{"", "", "refresh", "access"}[rng.Intn(4)]
 				cfg.Policy.Imp = []string{"", "", "u2@idp.example"}[rng.Intn(3)]
@@ -39,6 +40,9 @@ func RandomHistories(w *WorldJSON, seed int64, n, depth int, routers []string, f
 			}
 			if rng.Intn(4) == 0 {
 				cfg.NoKeyUse = true
+			}
+			if (focus == "device" || focus == "clientauth") && rng.Intn(3) == 0 {
+				cfg.FastPoll = true
 			}
 			if focus == "logout" && rng.Intn(2) == 0 {
 				cfg.Dyn = true
